@@ -57,6 +57,8 @@ class frequent_items_sketch {
 public:
 
   static const uint8_t LG_MIN_MAP_SIZE = 3;
+  /// log2 of the largest supported size of the internal hash map
+  static const uint8_t LG_MAX_MAP_SIZE = 30;
 
   /**
    * Construct this sketch with parameters lg_max_map_size and lg_start_map_size.
@@ -308,6 +310,7 @@ private:
   static void check_serial_version(uint8_t serial_version);
   static void check_family_id(uint8_t family_id);
   static void check_size(uint8_t lg_cur_size, uint8_t lg_max_size);
+  static void check_num_items(uint32_t num_items, uint8_t lg_cur_size);
 
   // version for integral signed type
   template<typename WW = W, typename std::enable_if<std::is_integral<WW>::value && std::is_signed<WW>::value, int>::type = 0>
